@@ -64,6 +64,48 @@ import TaRs.Lemmas.ChandelierExit
 import TaRs.Lemmas.CommodityChannelIndex
 import TaRs.Lemmas.MoneyFlowIndex
 import TaRs.Lemmas.OnBalanceVolume
+import TaRs.Lemmas.Reset.SlowStochastic
+import TaRs.Lemmas.Misc.SlowStochastic
+import TaRs.Lemmas.Reset.RateOfChange
+import TaRs.Lemmas.Misc.RateOfChange
+import TaRs.Lemmas.Reset.RelativeStrengthIndex
+import TaRs.Lemmas.Misc.RelativeStrengthIndex
+import TaRs.Lemmas.Reset.StandardDeviation
+import TaRs.Lemmas.Misc.StandardDeviation
+import TaRs.Lemmas.Reset.EfficiencyRatio
+import TaRs.Lemmas.Misc.EfficiencyRatio
+import TaRs.Lemmas.Reset.PercentagePriceOscillator
+import TaRs.Lemmas.Misc.PercentagePriceOscillator
+import TaRs.Lemmas.Misc.OnBalanceVolume
+import TaRs.Lemmas.Reset.ExponentialMovingAverage
+import TaRs.Lemmas.Misc.ExponentialMovingAverage
+import TaRs.Lemmas.Reset.MovingAverageConvergenceDivergence
+import TaRs.Lemmas.Misc.MovingAverageConvergenceDivergence
+import TaRs.Lemmas.Reset.ChandelierExit
+import TaRs.Lemmas.Misc.ChandelierExit
+import TaRs.Lemmas.Reset.CommodityChannelIndex
+import TaRs.Lemmas.Misc.CommodityChannelIndex
+import TaRs.Lemmas.Reset.BollingerBands
+import TaRs.Lemmas.Misc.BollingerBands
+import TaRs.Lemmas.Reset.AverageTrueRange
+import TaRs.Lemmas.Misc.AverageTrueRange
+import TaRs.Lemmas.Reset.Maximum
+import TaRs.Lemmas.Misc.Maximum
+import TaRs.Lemmas.Reset.WeightedMovingAverage
+import TaRs.Lemmas.Misc.WeightedMovingAverage
+import TaRs.Lemmas.Reset.SimpleMovingAverage
+import TaRs.Lemmas.Misc.SimpleMovingAverage
+import TaRs.Lemmas.Reset.MoneyFlowIndex
+import TaRs.Lemmas.Misc.MoneyFlowIndex
+import TaRs.Lemmas.Reset.FastStochastic
+import TaRs.Lemmas.Misc.FastStochastic
+import TaRs.Lemmas.Reset.KeltnerChannel
+import TaRs.Lemmas.Misc.KeltnerChannel
+import TaRs.Lemmas.Reset.Minimum
+import TaRs.Lemmas.Misc.Minimum
+import TaRs.Lemmas.Reset.MeanAbsoluteDeviation
+import TaRs.Lemmas.Misc.MeanAbsoluteDeviation
+import TaRs.Lemmas.Misc.TrueRange
 
 namespace TaRs.Props.C11
 open TaRs TaRs.Gen TaRs.Rs
